@@ -1,1 +1,453 @@
-//! (reference for camellia: to be written)
+//! Camellia, written from RFC 3713 "A Description of the Camellia Encryption Algorithm" (April 2004), following
+//! the RFC's own structure and names:
+//!   section 2.2   key scheduling part (KL, KR, KA, KB, Sigma1..6, subkeys kw / k / ke)
+//!   section 2.3.1 encryption for 128-bit keys (18 rounds), 2.3.2 for 192/256-bit keys (24 rounds)
+//!   section 2.3.3 decryption (same procedure, subkeys swapped)
+//!   section 2.4   F-function, FL- and FLINV-functions, 2.4.1 SBOX1 table
+//!   appendix A    test vectors (unit tests below)
+//! 128-bit quantities (M, KL, KR, KA, KB) are `u128`, 64-bit data and subkeys `u64`, exactly the RFC's
+//! "(X <<< n) >> 64" and "(X <<< n) & MASK64" notation.  Byte strings are big-endian.
+//!
+//! SBOX1 is a snapshot of the pinned tree (/repo/camellia/src/consts.rs, first table); SBOX2, SBOX3, SBOX4 are
+//! *computed* from it by the RFC's definitions SBOX2[x] = SBOX1[x] <<< 1, SBOX3[x] = SBOX1[x] <<< 7,
+//! SBOX4[x] = SBOX1[x <<< 1].  A few entries printed in the RFC are checked in the tests.
+
+pub const MASK8: u64 = 0xff;
+pub const MASK32: u64 = 0xffff_ffff;
+pub const MASK64: u128 = 0xffff_ffff_ffff_ffff;
+
+/// section 2.2
+pub const SIGMA1: u64 = 0xA09E667F3BCC908B;
+pub const SIGMA2: u64 = 0xB67AE8584CAA73B2;
+pub const SIGMA3: u64 = 0xC6EF372FE94F82BE;
+pub const SIGMA4: u64 = 0x54FF53A5F1D36F1C;
+pub const SIGMA5: u64 = 0x10E527FADE682D1D;
+pub const SIGMA6: u64 = 0xB05688C2B3E6C1FD;
+
+/// section 2.4.1
+pub const SBOX1: [u8; 256] = [
+    0x70, 0x82, 0x2c, 0xec, 0xb3, 0x27, 0xc0, 0xe5, 0xe4, 0x85, 0x57, 0x35, 0xea, 0x0c, 0xae, 0x41,
+    0x23, 0xef, 0x6b, 0x93, 0x45, 0x19, 0xa5, 0x21, 0xed, 0x0e, 0x4f, 0x4e, 0x1d, 0x65, 0x92, 0xbd,
+    0x86, 0xb8, 0xaf, 0x8f, 0x7c, 0xeb, 0x1f, 0xce, 0x3e, 0x30, 0xdc, 0x5f, 0x5e, 0xc5, 0x0b, 0x1a,
+    0xa6, 0xe1, 0x39, 0xca, 0xd5, 0x47, 0x5d, 0x3d, 0xd9, 0x01, 0x5a, 0xd6, 0x51, 0x56, 0x6c, 0x4d,
+    0x8b, 0x0d, 0x9a, 0x66, 0xfb, 0xcc, 0xb0, 0x2d, 0x74, 0x12, 0x2b, 0x20, 0xf0, 0xb1, 0x84, 0x99,
+    0xdf, 0x4c, 0xcb, 0xc2, 0x34, 0x7e, 0x76, 0x05, 0x6d, 0xb7, 0xa9, 0x31, 0xd1, 0x17, 0x04, 0xd7,
+    0x14, 0x58, 0x3a, 0x61, 0xde, 0x1b, 0x11, 0x1c, 0x32, 0x0f, 0x9c, 0x16, 0x53, 0x18, 0xf2, 0x22,
+    0xfe, 0x44, 0xcf, 0xb2, 0xc3, 0xb5, 0x7a, 0x91, 0x24, 0x08, 0xe8, 0xa8, 0x60, 0xfc, 0x69, 0x50,
+    0xaa, 0xd0, 0xa0, 0x7d, 0xa1, 0x89, 0x62, 0x97, 0x54, 0x5b, 0x1e, 0x95, 0xe0, 0xff, 0x64, 0xd2,
+    0x10, 0xc4, 0x00, 0x48, 0xa3, 0xf7, 0x75, 0xdb, 0x8a, 0x03, 0xe6, 0xda, 0x09, 0x3f, 0xdd, 0x94,
+    0x87, 0x5c, 0x83, 0x02, 0xcd, 0x4a, 0x90, 0x33, 0x73, 0x67, 0xf6, 0xf3, 0x9d, 0x7f, 0xbf, 0xe2,
+    0x52, 0x9b, 0xd8, 0x26, 0xc8, 0x37, 0xc6, 0x3b, 0x81, 0x96, 0x6f, 0x4b, 0x13, 0xbe, 0x63, 0x2e,
+    0xe9, 0x79, 0xa7, 0x8c, 0x9f, 0x6e, 0xbc, 0x8e, 0x29, 0xf5, 0xf9, 0xb6, 0x2f, 0xfd, 0xb4, 0x59,
+    0x78, 0x98, 0x06, 0x6a, 0xe7, 0x46, 0x71, 0xba, 0xd4, 0x25, 0xab, 0x42, 0x88, 0xa2, 0x8d, 0xfa,
+    0x72, 0x07, 0xb9, 0x55, 0xf8, 0xee, 0xac, 0x0a, 0x36, 0x49, 0x2a, 0x68, 0x3c, 0x38, 0xf1, 0xa4,
+    0x40, 0x28, 0xd3, 0x7b, 0xbb, 0xc9, 0x43, 0xc1, 0x15, 0xe3, 0xad, 0xf4, 0x77, 0xc7, 0x80, 0x9e,
+];
+pub const fn sbox1(x: u8) -> u8 { SBOX1[x as usize] }
+/// SBOX2[x] = SBOX1[x] <<< 1
+pub const fn sbox2(x: u8) -> u8 { SBOX1[x as usize].rotate_left(1) }
+/// SBOX3[x] = SBOX1[x] <<< 7
+pub const fn sbox3(x: u8) -> u8 { SBOX1[x as usize].rotate_left(7) }
+/// SBOX4[x] = SBOX1[x <<< 1]
+pub const fn sbox4(x: u8) -> u8 { SBOX1[x.rotate_left(1) as usize] }
+
+const fn tabulate(which: u8) -> [u8; 256] {
+    let mut t = [0u8; 256];
+    let mut i = 0;
+    while i < 256 {
+        t[i] = match which {
+            2 => sbox2(i as u8),
+            3 => sbox3(i as u8),
+            _ => sbox4(i as u8),
+        };
+        i += 1;
+    }
+    t
+}
+pub const SBOX2: [u8; 256] = tabulate(2);
+pub const SBOX3: [u8; 256] = tabulate(3);
+pub const SBOX4: [u8; 256] = tabulate(4);
+
+/// section 2.4: F-function.
+pub fn f(f_in: u64, ke: u64) -> u64 {
+    let x = f_in ^ ke;
+    let mut t1 = (x >> 56) as u8;
+    let mut t2 = ((x >> 48) & MASK8) as u8;
+    let mut t3 = ((x >> 40) & MASK8) as u8;
+    let mut t4 = ((x >> 32) & MASK8) as u8;
+    let mut t5 = ((x >> 24) & MASK8) as u8;
+    let mut t6 = ((x >> 16) & MASK8) as u8;
+    let mut t7 = ((x >> 8) & MASK8) as u8;
+    let mut t8 = (x & MASK8) as u8;
+    t1 = SBOX1[t1 as usize];
+    t2 = SBOX2[t2 as usize];
+    t3 = SBOX3[t3 as usize];
+    t4 = SBOX4[t4 as usize];
+    t5 = SBOX2[t5 as usize];
+    t6 = SBOX3[t6 as usize];
+    t7 = SBOX4[t7 as usize];
+    t8 = SBOX1[t8 as usize];
+    let y1 = t1 ^ t3 ^ t4 ^ t6 ^ t7 ^ t8;
+    let y2 = t1 ^ t2 ^ t4 ^ t5 ^ t7 ^ t8;
+    let y3 = t1 ^ t2 ^ t3 ^ t5 ^ t6 ^ t8;
+    let y4 = t2 ^ t3 ^ t4 ^ t5 ^ t6 ^ t7;
+    let y5 = t1 ^ t2 ^ t6 ^ t7 ^ t8;
+    let y6 = t2 ^ t3 ^ t5 ^ t7 ^ t8;
+    let y7 = t3 ^ t4 ^ t5 ^ t6 ^ t8;
+    let y8 = t1 ^ t4 ^ t5 ^ t6 ^ t7;
+    ((y1 as u64) << 56) | ((y2 as u64) << 48) | ((y3 as u64) << 40) | ((y4 as u64) << 32) | ((y5 as u64) << 24) | ((y6 as u64) << 16) | ((y7 as u64) << 8) | y8 as u64
+}
+
+/// section 2.4: FL-function.
+pub const fn fl(fl_in: u64, ke: u64) -> u64 {
+    let mut x1 = (fl_in >> 32) as u32;
+    let mut x2 = (fl_in & MASK32) as u32;
+    let k1 = (ke >> 32) as u32;
+    let k2 = (ke & MASK32) as u32;
+    x2 = x2 ^ (x1 & k1).rotate_left(1);
+    x1 = x1 ^ (x2 | k2);
+    ((x1 as u64) << 32) | x2 as u64
+}
+
+/// section 2.4: FLINV-function.
+pub const fn flinv(flinv_in: u64, ke: u64) -> u64 {
+    let mut y1 = (flinv_in >> 32) as u32;
+    let mut y2 = (flinv_in & MASK32) as u32;
+    let k1 = (ke >> 32) as u32;
+    let k2 = (ke & MASK32) as u32;
+    y1 = y1 ^ (y2 | k2);
+    y2 = y2 ^ (y1 & k1).rotate_left(1);
+    ((y1 as u64) << 32) | y2 as u64
+}
+
+/// section 2.2: KA from KL, KR.
+pub fn ka_of(kl: u128, kr: u128) -> u128 {
+    let mut d1 = ((kl ^ kr) >> 64) as u64;
+    let mut d2 = ((kl ^ kr) & MASK64) as u64;
+    d2 = d2 ^ f(d1, SIGMA1);
+    d1 = d1 ^ f(d2, SIGMA2);
+    d1 = d1 ^ (kl >> 64) as u64;
+    d2 = d2 ^ (kl & MASK64) as u64;
+    d2 = d2 ^ f(d1, SIGMA3);
+    d1 = d1 ^ f(d2, SIGMA4);
+    ((d1 as u128) << 64) | d2 as u128
+}
+
+/// section 2.2: KB from KA, KR (only used for 192/256-bit keys).
+pub fn kb_of(ka: u128, kr: u128) -> u128 {
+    let mut d1 = ((ka ^ kr) >> 64) as u64;
+    let mut d2 = ((ka ^ kr) & MASK64) as u64;
+    d2 = d2 ^ f(d1, SIGMA5);
+    d1 = d1 ^ f(d2, SIGMA6);
+    ((d1 as u128) << 64) | d2 as u128
+}
+
+/// "(X <<< n) >> 64"
+pub const fn hi(x: u128, n: u32) -> u64 { (x.rotate_left(n) >> 64) as u64 }
+/// "(X <<< n) & MASK64"
+pub const fn lo(x: u128, n: u32) -> u64 { (x.rotate_left(n) & MASK64) as u64 }
+
+/// Subkeys for 128-bit keys: kw1..kw4, k1..k18, ke1..ke4 (index 0 = the RFC's index 1).
+#[derive(Clone, Copy, PartialEq, Eq, Debug)]
+pub struct Subkeys18 {
+    pub kw: [u64; 4],
+    pub k: [u64; 18],
+    pub ke: [u64; 4],
+}
+/// Subkeys for 192- and 256-bit keys: kw1..kw4, k1..k24, ke1..ke6.
+#[derive(Clone, Copy, PartialEq, Eq, Debug)]
+pub struct Subkeys24 {
+    pub kw: [u64; 4],
+    pub k: [u64; 24],
+    pub ke: [u64; 6],
+}
+
+/// section 2.2, 128-bit keys: subkeys from KL and KA.
+pub fn subkeys_128(kl: u128, ka: u128) -> Subkeys18 {
+    let mut s = Subkeys18 { kw: [0; 4], k: [0; 18], ke: [0; 4] };
+    s.kw[0] = hi(kl, 0);
+    s.kw[1] = lo(kl, 0);
+    s.k[0] = hi(ka, 0);
+    s.k[1] = lo(ka, 0);
+    s.k[2] = hi(kl, 15);
+    s.k[3] = lo(kl, 15);
+    s.k[4] = hi(ka, 15);
+    s.k[5] = lo(ka, 15);
+    s.ke[0] = hi(ka, 30);
+    s.ke[1] = lo(ka, 30);
+    s.k[6] = hi(kl, 45);
+    s.k[7] = lo(kl, 45);
+    s.k[8] = hi(ka, 45);
+    s.k[9] = lo(kl, 60);
+    s.k[10] = hi(ka, 60);
+    s.k[11] = lo(ka, 60);
+    s.ke[2] = hi(kl, 77);
+    s.ke[3] = lo(kl, 77);
+    s.k[12] = hi(kl, 94);
+    s.k[13] = lo(kl, 94);
+    s.k[14] = hi(ka, 94);
+    s.k[15] = lo(ka, 94);
+    s.k[16] = hi(kl, 111);
+    s.k[17] = lo(kl, 111);
+    s.kw[2] = hi(ka, 111);
+    s.kw[3] = lo(ka, 111);
+    s
+}
+
+/// section 2.2, 192/256-bit keys: subkeys from KL, KR, KA, KB.
+pub fn subkeys_256(kl: u128, kr: u128, ka: u128, kb: u128) -> Subkeys24 {
+    let mut s = Subkeys24 { kw: [0; 4], k: [0; 24], ke: [0; 6] };
+    s.kw[0] = hi(kl, 0);
+    s.kw[1] = lo(kl, 0);
+    s.k[0] = hi(kb, 0);
+    s.k[1] = lo(kb, 0);
+    s.k[2] = hi(kr, 15);
+    s.k[3] = lo(kr, 15);
+    s.k[4] = hi(ka, 15);
+    s.k[5] = lo(ka, 15);
+    s.ke[0] = hi(kr, 30);
+    s.ke[1] = lo(kr, 30);
+    s.k[6] = hi(kb, 30);
+    s.k[7] = lo(kb, 30);
+    s.k[8] = hi(kl, 45);
+    s.k[9] = lo(kl, 45);
+    s.k[10] = hi(ka, 45);
+    s.k[11] = lo(ka, 45);
+    s.ke[2] = hi(kl, 60);
+    s.ke[3] = lo(kl, 60);
+    s.k[12] = hi(kr, 60);
+    s.k[13] = lo(kr, 60);
+    s.k[14] = hi(kb, 60);
+    s.k[15] = lo(kb, 60);
+    s.k[16] = hi(kl, 77);
+    s.k[17] = lo(kl, 77);
+    s.ke[4] = hi(ka, 77);
+    s.ke[5] = lo(ka, 77);
+    s.k[18] = hi(kr, 94);
+    s.k[19] = lo(kr, 94);
+    s.k[20] = hi(ka, 94);
+    s.k[21] = lo(ka, 94);
+    s.k[22] = hi(kl, 111);
+    s.k[23] = lo(kl, 111);
+    s.kw[2] = hi(kb, 111);
+    s.kw[3] = lo(kb, 111);
+    s
+}
+
+/// section 2.2: (KL, KR) from the key K.  128: KL = K, KR = 0.  192: KL = K >> 64, KR = ((K & MASK64) << 64) | ~(K & MASK64).
+/// 256: KL = K >> 128, KR = K & MASK128.
+pub fn klkr_128(key: &[u8; 16]) -> (u128, u128) { (u128::from_be_bytes(*key), 0) }
+pub fn klkr_192(key: &[u8; 24]) -> (u128, u128) {
+    let mut kl = 0u128;
+    let mut i = 0;
+    while i < 16 {
+        kl = (kl << 8) | key[i] as u128;
+        i += 1;
+    }
+    let mut low = 0u64; // K & MASK64
+    while i < 24 {
+        low = (low << 8) | key[i] as u64;
+        i += 1;
+    }
+    (kl, ((low as u128) << 64) | (!low) as u128)
+}
+pub fn klkr_256(key: &[u8; 32]) -> (u128, u128) {
+    let mut kl = 0u128;
+    let mut kr = 0u128;
+    let mut i = 0;
+    while i < 16 {
+        kl = (kl << 8) | key[i] as u128;
+        kr = (kr << 8) | key[i + 16] as u128;
+        i += 1;
+    }
+    (kl, kr)
+}
+
+pub fn key_schedule_128(key: &[u8; 16]) -> Subkeys18 {
+    let (kl, kr) = klkr_128(key);
+    subkeys_128(kl, ka_of(kl, kr))
+}
+pub fn key_schedule_192(key: &[u8; 24]) -> Subkeys24 {
+    let (kl, kr) = klkr_192(key);
+    let ka = ka_of(kl, kr);
+    subkeys_256(kl, kr, ka, kb_of(ka, kr))
+}
+pub fn key_schedule_256(key: &[u8; 32]) -> Subkeys24 {
+    let (kl, kr) = klkr_256(key);
+    let ka = ka_of(kl, kr);
+    subkeys_256(kl, kr, ka, kb_of(ka, kr))
+}
+
+/// Two Feistel rounds "D2 = D2 ^ F(D1, k_a); D1 = D1 ^ F(D2, k_b)".
+pub fn round_pair(d: (u64, u64), ka: u64, kb: u64) -> (u64, u64) {
+    let (mut d1, mut d2) = d;
+    d2 = d2 ^ f(d1, ka);
+    d1 = d1 ^ f(d2, kb);
+    (d1, d2)
+}
+
+/// section 2.3.1: encryption with 18 rounds on M (128 bits).
+pub fn crypt_18(s: &Subkeys18, m: u128) -> u128 {
+    let mut d1 = (m >> 64) as u64;
+    let mut d2 = (m & MASK64) as u64;
+    d1 = d1 ^ s.kw[0]; // prewhitening
+    d2 = d2 ^ s.kw[1];
+    let mut g = 0;
+    while g < 3 {
+        let mut r = 0;
+        while r < 3 {
+            // rounds 6g + 2r + 1, 6g + 2r + 2
+            (d1, d2) = round_pair((d1, d2), s.k[6 * g + 2 * r], s.k[6 * g + 2 * r + 1]);
+            r += 1;
+        }
+        if g < 2 {
+            d1 = fl(d1, s.ke[2 * g]);
+            d2 = flinv(d2, s.ke[2 * g + 1]);
+        }
+        g += 1;
+    }
+    d2 = d2 ^ s.kw[2]; // postwhitening
+    d1 = d1 ^ s.kw[3];
+    ((d2 as u128) << 64) | d1 as u128
+}
+
+/// section 2.3.2: encryption with 24 rounds.
+pub fn crypt_24(s: &Subkeys24, m: u128) -> u128 {
+    let mut d1 = (m >> 64) as u64;
+    let mut d2 = (m & MASK64) as u64;
+    d1 = d1 ^ s.kw[0];
+    d2 = d2 ^ s.kw[1];
+    let mut g = 0;
+    while g < 4 {
+        let mut r = 0;
+        while r < 3 {
+            (d1, d2) = round_pair((d1, d2), s.k[6 * g + 2 * r], s.k[6 * g + 2 * r + 1]);
+            r += 1;
+        }
+        if g < 3 {
+            d1 = fl(d1, s.ke[2 * g]);
+            d2 = flinv(d2, s.ke[2 * g + 1]);
+        }
+        g += 1;
+    }
+    d2 = d2 ^ s.kw[2];
+    d1 = d1 ^ s.kw[3];
+    ((d2 as u128) << 64) | d1 as u128
+}
+
+/// section 2.3.3, 128-bit keys: kw1 <-> kw3, kw2 <-> kw4, k1 <-> k18, ..., k9 <-> k10, ke1 <-> ke4, ke2 <-> ke3.
+pub fn swap_18(s: &Subkeys18) -> Subkeys18 {
+    let mut t = Subkeys18 { kw: [s.kw[2], s.kw[3], s.kw[0], s.kw[1]], k: [0; 18], ke: [0; 4] };
+    let mut i = 0;
+    while i < 18 {
+        t.k[i] = s.k[17 - i];
+        i += 1;
+    }
+    let mut i = 0;
+    while i < 4 {
+        t.ke[i] = s.ke[3 - i];
+        i += 1;
+    }
+    t
+}
+/// section 2.3.3, 192/256-bit keys: kw1 <-> kw3, kw2 <-> kw4, k1 <-> k24, ..., ke1 <-> ke6, ke2 <-> ke5, ke3 <-> ke4.
+pub fn swap_24(s: &Subkeys24) -> Subkeys24 {
+    let mut t = Subkeys24 { kw: [s.kw[2], s.kw[3], s.kw[0], s.kw[1]], k: [0; 24], ke: [0; 6] };
+    let mut i = 0;
+    while i < 24 {
+        t.k[i] = s.k[23 - i];
+        i += 1;
+    }
+    let mut i = 0;
+    while i < 6 {
+        t.ke[i] = s.ke[5 - i];
+        i += 1;
+    }
+    t
+}
+
+pub fn encrypt_with_18(s: &Subkeys18, m: u128) -> u128 { crypt_18(s, m) }
+pub fn decrypt_with_18(s: &Subkeys18, c: u128) -> u128 { crypt_18(&swap_18(s), c) }
+pub fn encrypt_with_24(s: &Subkeys24, m: u128) -> u128 { crypt_24(s, m) }
+pub fn decrypt_with_24(s: &Subkeys24, c: u128) -> u128 { crypt_24(&swap_24(s), c) }
+
+pub fn encrypt_128(key: &[u8; 16], block: &[u8; 16]) -> [u8; 16] { crypt_18(&key_schedule_128(key), u128::from_be_bytes(*block)).to_be_bytes() }
+pub fn decrypt_128(key: &[u8; 16], block: &[u8; 16]) -> [u8; 16] { decrypt_with_18(&key_schedule_128(key), u128::from_be_bytes(*block)).to_be_bytes() }
+pub fn encrypt_192(key: &[u8; 24], block: &[u8; 16]) -> [u8; 16] { crypt_24(&key_schedule_192(key), u128::from_be_bytes(*block)).to_be_bytes() }
+pub fn decrypt_192(key: &[u8; 24], block: &[u8; 16]) -> [u8; 16] { decrypt_with_24(&key_schedule_192(key), u128::from_be_bytes(*block)).to_be_bytes() }
+pub fn encrypt_256(key: &[u8; 32], block: &[u8; 16]) -> [u8; 16] { crypt_24(&key_schedule_256(key), u128::from_be_bytes(*block)).to_be_bytes() }
+pub fn decrypt_256(key: &[u8; 32], block: &[u8; 16]) -> [u8; 16] { decrypt_with_24(&key_schedule_256(key), u128::from_be_bytes(*block)).to_be_bytes() }
+
+#[cfg(test)]
+mod tests {
+    use super::*;
+
+    fn hex<const N: usize>(s: &str) -> [u8; N] {
+        let b = s.as_bytes();
+        let mut out = [0u8; N];
+        let mut i = 0;
+        while i < N {
+            let h = (b[2 * i] as char).to_digit(16).unwrap() as u8;
+            let l = (b[2 * i + 1] as char).to_digit(16).unwrap() as u8;
+            out[i] = (h << 4) | l;
+            i += 1;
+        }
+        out
+    }
+
+    /// RFC 3713 appendix A
+    #[test]
+    fn rfc3713_128() {
+        let k: [u8; 16] = hex("0123456789abcdeffedcba9876543210");
+        let p: [u8; 16] = hex("0123456789abcdeffedcba9876543210");
+        let c: [u8; 16] = hex("67673138549669730857065648eabe43");
+        assert_eq!(encrypt_128(&k, &p), c);
+        assert_eq!(decrypt_128(&k, &c), p);
+    }
+    #[test]
+    fn rfc3713_192() {
+        let k: [u8; 24] = hex("0123456789abcdeffedcba98765432100011223344556677");
+        let p: [u8; 16] = hex("0123456789abcdeffedcba9876543210");
+        let c: [u8; 16] = hex("b4993401b3e996f84ee5cee7d79b09b9");
+        assert_eq!(encrypt_192(&k, &p), c);
+        assert_eq!(decrypt_192(&k, &c), p);
+    }
+    #[test]
+    fn rfc3713_256() {
+        let k: [u8; 32] = hex("0123456789abcdeffedcba987654321000112233445566778899aabbccddeeff");
+        let p: [u8; 16] = hex("0123456789abcdeffedcba9876543210");
+        let c: [u8; 16] = hex("9acc237dff16d76c20ef7c919e3a7509");
+        assert_eq!(encrypt_256(&k, &p), c);
+        assert_eq!(decrypt_256(&k, &c), p);
+    }
+    /// corner entries of the table printed in section 2.4.1 and of the derived tables
+    #[test]
+    fn sbox_entries() {
+        assert_eq!(SBOX1[0], 112);
+        assert_eq!(SBOX1[1], 130);
+        assert_eq!(SBOX1[15], 65);
+        assert_eq!(SBOX1[16], 35);
+        assert_eq!(SBOX1[255], 158);
+        assert_eq!(SBOX2[0], 224);
+        assert_eq!(SBOX3[0], 56);
+        assert_eq!(SBOX4[0], 112);
+        assert_eq!(SBOX4[1], 44);
+        let mut seen = [false; 256];
+        for v in SBOX1 { seen[v as usize] = true; }
+        assert!(seen.iter().all(|b| *b));
+    }
+    /// FL and FLINV are mutually inverse for every subkey (spot values)
+    #[test]
+    fn fl_inverse() {
+        let mut x = 0x0123456789abcdefu64;
+        let mut k = 0xfedcba9876543210u64;
+        let mut i = 0;
+        while i < 1000 {
+            assert_eq!(flinv(fl(x, k), k), x);
+            assert_eq!(fl(flinv(x, k), k), x);
+            x = x.wrapping_mul(6364136223846793005).wrapping_add(1442695040888963407);
+            k = k.wrapping_mul(2862933555777941757).wrapping_add(3037000493);
+            i += 1;
+        }
+    }
+}
